@@ -769,6 +769,7 @@ class World(object):
                 e = snap[ik]
                 if known and known[0] == 'junk':
                     junk.append({'t': t, 'id': known[1], 'kind': 'nopath'})
+                    slots[(t, slot)] = ('junk', known[1])
                     if e != self.baseline.get(ik):
                         anomalies.append('junk info %r modified' % iname)
                     if slot in pays:
